@@ -281,7 +281,13 @@ def swan(rng, d, opts):
     if rng.random() < 0.5:
         th_from = np.roll(th_from[::-1], int(rng.integers(0, nd)))
     if opts["dirs"] == "NDIR":
-        dt_, dfile = _parse("%10.4f", th_from)
+        hdr = th_from.copy()
+        style = str(rng.choice(["0-360", "0-360", "zero-centred", "ends-at-360"]))
+        if style == "zero-centred":
+            hdr = np.where(hdr >= 180.0, hdr - 360.0, hdr)       # e.g. -180 .. 165
+        elif style == "ends-at-360":
+            hdr = np.where(hdr == 0.0, 360.0, hdr)
+        dt_, dfile = _parse("%10.4f", hdr)
         th_true = dfile % 360.0
     else:
         cart = (270.0 - th_from) % 360.0            # Cartesian convention of the same physical directions
